@@ -239,9 +239,11 @@ class DataLoggerRun:
             dc.stop()
             self.res.probes["stops"] += 1
             self.check_files("after stop")
-            if not res.violations and ch.flag("cfg.second_collection", 1, 5) and not self.forced:
-                # a second recording in the same collection object (new directory)
-                self.restart()
+            nrec = 1
+            while not res.violations and nrec < 3 and ch.flag("cfg.second_collection", 1, 4) and not self.forced:
+                # another recording in the same collection object (new directory)
+                nrec += 1
+                self.restart(nrec)
             self.t("close()")
             dc.close()
         except ChoiceBudgetExceeded:
@@ -302,10 +304,10 @@ class DataLoggerRun:
             self.classify_window()
         return res
 
-    def restart(self):
+    def restart(self, nrec=2):
         dc = self.dc
-        # new save directory for the second recording
-        dc.dir_fmt = "run2"
+        # new save directory for this recording
+        dc.dir_fmt = f"run{nrec}"
         for k in self.expected:
             self.expected[k] = []
         self.t("start() again")
@@ -316,8 +318,10 @@ class DataLoggerRun:
                 self.sched.yield_point("op.boundary")
         self.t("stop()")
         dc.stop()
-        self.check_files("after second stop", subdir="run2")
+        self.check_files(f"after stop #{nrec}", subdir=f"run{nrec}")
         self.res.probes["second_recording"] += 1
+        if nrec > 2:
+            self.res.probes["third_recording"] += 1
 
     # ------------------------------------------------------------------ oracle
     def read_back(self, ds, fmt, subdir):
